@@ -2,12 +2,19 @@ package main
 
 import (
 	"bufio"
+	"crypto/sha256"
+	"encoding/hex"
 	"encoding/json"
 	"flag"
 	"fmt"
+	"io/fs"
 	"os"
+	"path/filepath"
+	"sort"
 	"strings"
 )
+
+var repoDir = "/repo"
 
 // Program is one history to execute: configuration, universe and operations.
 type Program struct {
@@ -20,7 +27,8 @@ type Program struct {
 	TagStyle int      `json:"tagstyle"`
 	Seed     int64    `json:"seed"`
 	Ops      []Op     `json:"ops"`
-	Pre      string   `json:"pre"` // pre-existing directory content: "" | "testrepo" | path
+	Pre      string   `json:"pre"`      // pre-existing directory content copied into repository r1: "" | "testrepo" | "corrupt" | "legacy"
+	Sentinel bool     `json:"sentinel"` // place sentinel siblings next to the root directory and watch them
 }
 
 func main() {
@@ -59,6 +67,7 @@ func cmdCatalogue(args []string) {
 	seed := fs.Int64("seed", 1, "seed")
 	out := fs.String("o", "-", "output file")
 	cfgJSON := fs.String("cfg", "", "JSON overrides of the default server configuration")
+	reconfJSON := fs.String("reconf", "", "JSON list of configurations the Reconf operation may switch to")
 	ntags := fs.Int("ntags", 3, "number of model tags")
 	nrepos := fs.Int("nrepos", 2, "number of model repositories")
 	_ = fs.Parse(args)
@@ -75,6 +84,13 @@ func cmdCatalogue(args []string) {
 	}
 	hdr := cat.Header()
 	hdr["cfg"] = cfg
+	reconf := []SrvCfg{}
+	if *reconfJSON != "" {
+		if err := json.Unmarshal([]byte(*reconfJSON), &reconf); err != nil {
+			fatal(err)
+		}
+	}
+	hdr["reconf"] = reconf
 	cuts := map[string]any{}
 	for _, id := range cat.Order {
 		n := len(cat.C[id].Bytes)
@@ -102,7 +118,9 @@ func cmdRun(args []string) {
 	seed := fs.Int64("seed", 1, "seed")
 	obs := fs.String("obs", "refs,sess", "observation parts: refs,filters,disk,sess,ranges")
 	keep := fs.String("keep", "", "directory to keep roots in (default: temp, removed)")
+	rd := fs.String("repo", "/repo", "path of the olareg checkout (for testdata)")
 	_ = fs.Parse(args)
+	repoDir = *rd
 	oo := ObsOpts{}
 	for _, p := range splitList(*obs) {
 		switch p {
@@ -166,18 +184,29 @@ func RunProgram(p *Program, store string, seed int64, oo ObsOpts, enc *json.Enco
 		cfg = *p.Cfg
 		cfg.Store = store
 	}
-	root := ""
+	root, sandbox := "", ""
 	if store != "mem" {
 		if keep != "" {
-			root = keep + "/" + p.ID + "-" + store
-			_ = os.MkdirAll(root, 0o755)
+			sandbox = keep + "/" + p.ID + "-" + store
 		} else {
-			root = mkTemp("vh-root-")
-			defer os.RemoveAll(root)
+			sandbox = mkTemp("vh-sandbox-")
+			defer os.RemoveAll(sandbox)
+		}
+		root = filepath.Join(sandbox, "root")
+		_ = os.MkdirAll(root, 0o755)
+		if p.Sentinel {
+			if err := makeSentinels(sandbox, cat); err != nil {
+				return 0, err
+			}
+		}
+		if p.Pre != "" {
+			if err := copyPre(p.Pre, filepath.Join(root, cat.RepoReal[cat.Repos[0]])); err != nil {
+				return 0, err
+			}
 		}
 	}
 	srv := NewSrv(cfg, root)
-	defer srv.Close()
+	defer func() { _ = srv.Close() }()
 	ex := NewExec(cat, srv, pseed)
 	hdr := cat.Header()
 	cuts := map[string]any{}
@@ -186,7 +215,15 @@ func RunProgram(p *Program, store string, seed int64, oo ObsOpts, enc *json.Enco
 		cuts[id] = map[string]int{"p1": c[0], "p2": c[1] - c[0], "p3": n - c[1], "all": n, "e": 0}
 	}
 	hdr["cuts"] = cuts
-	if err := enc.Encode(map[string]any{"k": "reset", "trace": p.ID + "@" + store, "store": store, "cfg": cfg, "cat": hdr}); err != nil {
+	sums := func() (string, string) {
+		if sandbox == "" {
+			return "", ""
+		}
+		return treeSum(root, ""), treeSum(sandbox, "root")
+	}
+	rs, osum := sums()
+	if err := enc.Encode(map[string]any{"k": "reset", "trace": p.ID + "@" + store, "store": store, "cfg": cfg, "cat": hdr,
+		"rootsum": rs, "outsum": osum, "pre": p.Pre}); err != nil {
 		return 0, err
 	}
 	events := 0
@@ -196,7 +233,8 @@ func RunProgram(p *Program, store string, seed int64, oo ObsOpts, enc *json.Enco
 			o[rm] = ex.Observe(rm, oo)
 		}
 		events++
-		return enc.Encode(map[string]any{"k": "op", "i": events, "op": op, "resp": r, "obs": o})
+		rs, osum := sums()
+		return enc.Encode(map[string]any{"k": "op", "i": events, "op": op, "resp": r, "obs": o, "rootsum": rs, "outsum": osum})
 	}
 	for _, op := range p.Ops {
 		for _, prim := range ex.Expand(op) {
@@ -252,4 +290,89 @@ func (e *Exec) Expand(op Op) []func() Op {
 		return []func() Op{lit(op)}
 	}
 	return []func() Op{lit(op)}
+}
+
+// treeSum is a digest over names, modes, sizes, contents and modification times of everything below dir
+// (except the top level entry `skip`): any creation, modification or deletion changes it.
+func treeSum(dir, skip string) string {
+	h := sha256.New()
+	lines := []string{}
+	_ = filepath.WalkDir(dir, func(path string, d fs.DirEntry, err error) error {
+		if err != nil {
+			lines = append(lines, "ERR "+path)
+			return nil
+		}
+		rel, _ := filepath.Rel(dir, path)
+		if skip != "" && (rel == skip || strings.HasPrefix(rel, skip+string(os.PathSeparator))) {
+			if d.IsDir() {
+				return filepath.SkipDir
+			}
+			return nil
+		}
+		fi, err := d.Info()
+		if err != nil {
+			lines = append(lines, "ERR "+rel)
+			return nil
+		}
+		line := fmt.Sprintf("%s %v %d %d", rel, fi.Mode(), fi.Size(), fi.ModTime().UnixNano())
+		if fi.Mode().IsRegular() {
+			b, _ := os.ReadFile(path)
+			sum := sha256.Sum256(b)
+			line += " " + hex.EncodeToString(sum[:8])
+		}
+		lines = append(lines, line)
+		return nil
+	})
+	sort.Strings(lines)
+	for _, l := range lines {
+		h.Write([]byte(l + "\n"))
+	}
+	return hex.EncodeToString(h.Sum(nil)[:12])
+}
+
+// makeSentinels creates siblings of the root directory: a valid layout holding every catalogue blob (so that an
+// unvalidated cross repository mount from "../victim" would succeed), an empty layout and a plain file.
+func makeSentinels(sandbox string, cat *Catalogue) error {
+	v := filepath.Join(sandbox, "victim")
+	if err := os.MkdirAll(filepath.Join(v, "blobs", "sha256"), 0o755); err != nil {
+		return err
+	}
+	_ = os.WriteFile(filepath.Join(v, "oci-layout"), []byte(`{"imageLayoutVersion":"1.0.0"}`), 0o644)
+	_ = os.WriteFile(filepath.Join(v, "index.json"), []byte(`{"schemaVersion":2,"mediaType":"application/vnd.oci.image.index.v1+json","manifests":[]}`), 0o644)
+	for _, id := range cat.Order {
+		real := cat.SymDig[sym("sha256", id)]
+		_ = os.WriteFile(filepath.Join(v, "blobs", "sha256", strings.TrimPrefix(real, "sha256:")), cat.C[id].Bytes, 0o644)
+	}
+	e := filepath.Join(sandbox, "empty")
+	_ = os.MkdirAll(e, 0o755)
+	_ = os.WriteFile(filepath.Join(e, "oci-layout"), []byte(`{"imageLayoutVersion":"1.0.0"}`), 0o644)
+	_ = os.WriteFile(filepath.Join(e, "index.json"), []byte(`{"schemaVersion":2,"manifests":[]}`), 0o644)
+	return os.WriteFile(filepath.Join(sandbox, "outside.txt"), []byte("do not touch"), 0o644)
+}
+
+// copyPre places pre-existing content into the directory of the first repository.
+func copyPre(kind, dst string) error {
+	src := ""
+	switch kind {
+	case "testrepo":
+		src = filepath.Join(repoDir, "testdata", "testrepo")
+	case "corrupt":
+		src = filepath.Join(repoDir, "testdata", "corrupt")
+	default:
+		src = kind
+	}
+	return filepath.WalkDir(src, func(path string, d fs.DirEntry, err error) error {
+		if err != nil {
+			return err
+		}
+		rel, _ := filepath.Rel(src, path)
+		if d.IsDir() {
+			return os.MkdirAll(filepath.Join(dst, rel), 0o755)
+		}
+		b, err := os.ReadFile(path)
+		if err != nil {
+			return err
+		}
+		return os.WriteFile(filepath.Join(dst, rel), b, 0o644)
+	})
 }
